@@ -57,6 +57,9 @@ TGSYMPYB = "tangelo/linq/target/target_sympy.py"
 BKF = "tangelo/toolboxes/qubit_mappings/bravyi_kitaev.py"
 ISP = "tangelo/toolboxes/molecular_computation/integral_solver_pyscf.py"
 
+PUCCDF = "tangelo/toolboxes/ansatz_generator/puccd.py"
+VCA = "tangelo/toolboxes/ansatz_generator/variational_circuit.py"
+
 FIRE = [
     # ---- C11
     ("trim-keeps-old-index-set", "C11", [(CIRC, "        self._qubit_indices = set(range(len(qubits_in_use)))\n", "")], "K2.class-invariant"),
@@ -158,7 +161,6 @@ FIRE = [
     ("ladder-not-reversed", "C06", [(AU, "    gates += cnot_ladder_gates[::-1]", "    gates += cnot_ladder_gates")], "K9.exp-pauliword"),
     ("negative-angle-offset", "C06", [(AU, "    angle = 2.*coef if coef >= 0. else 4*np.pi+2*coef", "    angle = 2.*coef if coef >= 0. else 2*np.pi+2*coef")], "K9.angle-law"),
     ("suzuki-outer-once", "C06", [(AU, "        outside = 2 * recursive_trotter_suzuki_decomposition(pauli_words, order-2, time_factor*time)", "        outside = recursive_trotter_suzuki_decomposition(pauli_words, order-2, time_factor*time)")], "K9.suzuki"),
-    ("identity-term-cphase-angle", "C06", [(AU, 'Gate("CPHASE", target=0, control=control, parameter=-2*np.real(coef), is_variational=variational)', 'Gate("CPHASE", target=0, control=control, parameter=-np.real(coef), is_variational=variational)')], "K9.identity-term"),
     ("skip-terms-at-multiples-of-pi", "C06", [(AU, "            if variational or abs(np.real(coef)) > 1.e-10:", "            if variational or abs(np.sin(np.real(coef))) > 1.e-10:")], "K9.identity-term"),
     ("fermionic-dict-time-not-divided", "C06", [(AU, "            evolve_time = {term: time for term in operator.terms.keys()}", "            evolve_time = {term: time / n_trotter_steps for term in operator.terms.keys()}"),
                                                  (AU, "operator.terms[term]*evolve_time[term]/n_trotter_steps)", "operator.terms[term]*evolve_time[term])")], "K8.trotterize-scaling"),
@@ -250,6 +252,26 @@ FIRE = [
     ("depol-rate", "C19", [(TCIRQ, "depo = cirq.depolarize(np*(4**depo_size-1)/4**depo_size, depo_size)", "depo = cirq.depolarize(np*(4**depo_size-1)/4**depo_size, 2)")], "K9.channel-rates"),
     ("pauli-noise-skips-controls", "C19", [(TCIRQ, "                    if gate.control is not None:\n                        target_circuit += [depo(qubit_list[c]) for c in gate.control]\n", "")], "K5.channel-block"),
     ("depol-accepts-int", "C19", [(NOISE, "if noise_type == 'depol' and not isinstance(noise_params, float):", "if noise_type == 'depol' and isinstance(noise_params, (list, tuple)):")], "K6.noise-validation"),
+    # ---- rules added in wave 3
+    ("identity-term-control-zero", "C06", [(AU, "            if control is None:\n                phase *= np.exp(-1j * np.real(coef))", "            if not control:\n                phase *= np.exp(-1j * np.real(coef))")], "K9.identity-term"),
+    ("identity-term-multi-control-half-angle", "C06", [(AU, "target=control[-1], control=control[:-1], parameter=-np.real(coef)", "target=control[-1], control=control[:-1], parameter=-2*np.real(coef)")], "K9.identity-term"),
+    ("hcb-guard-case-sensitive", "C03", [(MT, "    if up_then_down and mapping.upper() != \"HCB\":", "    if up_then_down and mapping != \"HCB\":")], "K8.spin-ordering"),
+    ("hcb-guard-case-sensitive-fermionic-evolution", "C06", [(MT, "    if up_then_down and mapping.upper() != \"HCB\":", "    if up_then_down and mapping != \"HCB\":")], "K8.spin-ordering"),
+    ("combinatorial-real-matrix", "C03", [(COMBI, "    quop_matrix = np.zeros((2**n, 2**n), dtype=np.complex64)", "    quop_matrix = np.zeros((2**n, 2**n), dtype=np.float64)")], "K9.combinatorial-spectrum"),
+    ("combinatorial-drops-phase", "C03", [(COMBI, "            quop_matrix[unique_int, new_unique_int] += phase*coeff", "            quop_matrix[unique_int, new_unique_int] += coeff")], "K9.combinatorial-spectrum"),
+    ("record-split-by-measure-count", "C10", [(BACK, "            if n_cmeas == 0:\n                self.mid_circuit_meas_freqs, frequencies = split_frequency_dict(", "            if n_meas > 0:\n                self.mid_circuit_meas_freqs, frequencies = split_frequency_dict(")], "K7.record-split"),
+    ("cirq-records-in-key-string-order", "C10", [(TGCIRQ, "                bitstr = \"\".join([str(job_sim.measurements[str(i)][j, 0]) for i in range(n_meas + source_circuit.width)])", "                bitstr = \"\".join([str(job_sim.measurements[k][j, 0]) for k in sorted(job_sim.measurements)])")], "K10.record-order"),
+    ("cirq-records-in-key-string-order-expectation", "C02", [(TGCIRQ, "                bitstr = \"\".join([str(job_sim.measurements[str(i)][j, 0]) for i in range(n_meas + source_circuit.width)])", "                bitstr = \"\".join([str(job_sim.measurements[k][j, 0]) for k in sorted(job_sim.measurements)])")], "K10.record-order"),
+    ("simplify-forgets-threshold", "C09", [(CIRC, "        c_new.remove_small_rotations(param_threshold=param_threshold, remove_qubits=remove_qubits)", "        c_new.remove_small_rotations(remove_qubits=remove_qubits)")], "K9.simplify-threshold"),
+    ("simplify-method-forgets-threshold", "C09", [(CIRC, "                               max_cycles=max_cycles, param_threshold=param_threshold,", "                               max_cycles=max_cycles,")], "K9.simplify-threshold"),
+    ("puccd-build-bypasses-update", "C07", [(PUCCDF, "        rotation_gates = [givens_gate((p, q), 0., is_variational=True) for (p, q) in excitations]", "        rotation_gates = [givens_gate((p, q), -theta, is_variational=True) for (p, q), theta in zip(excitations, self.var_params)]"),
+                                              (PUCCDF, "        self.update_var_params(self.var_params)\n        return self.circuit", "        return self.circuit")], "K8.update-equals-rebuild"),
+    ("user-circuit-update-off-by-one", "C07", [(VCA, "        for param_index in range(self.n_var_params):", "        for param_index in range(1, self.n_var_params):")], "K8.live-parameters"),
+    ("deflation-coeff-zero-replaced", "C08", [(VQE, "        self.deflation_coeff: float = copt_dict.pop(\"deflation_coeff\", 1)", "        self.deflation_coeff: float = copt_dict.pop(\"deflation_coeff\", None) or 1")], "K7.option-passthrough"),
+    ("scbk-alpha-closed-form-default-spin", "C05", [(SCBK, "    n_alpha = n_electrons//2 + spin//2 + (n_electrons % 2)", "    n_alpha = (n_electrons + spin)//2")], "K8.default-spin"),
+    ("scbk-vector-beta-first", "C05", [(SV, "            warnings.warn(\"Symmetry-conserving Bravyi-Kitaev enforces all spin-up followed by all spin-down ordering.\", RuntimeWarning)\n            vector = np.concatenate((vector[::2], vector[1::2]))", "            warnings.warn(\"Symmetry-conserving Bravyi-Kitaev enforces all spin-up followed by all spin-down ordering.\", RuntimeWarning)\n            vector = np.concatenate((vector[1::2], vector[::2]))")], "K8.vector-ordering"),
+    ("hcore-in-stored-orbitals", "C04", [(ISP, "        one_electron_integrals = mo_coeff.T @ sqmol.mean_field.get_hcore() @ mo_coeff", "        one_electron_integrals = self.mo_coeff.T @ sqmol.mean_field.get_hcore() @ self.mo_coeff")], "K7.explicit-argument"),
+    ("ao-integrals-computed-once", "C04", [(ISP, "        two_electron_integrals = self.ao2mo.kernel(pyscf_mol.intor(\"int2e\"), mo_coeff)", "        if getattr(self, \"_eri_ao\", None) is None:\n            self._eri_ao = pyscf_mol.intor(\"int2e\")\n        two_electron_integrals = self.ao2mo.kernel(self._eri_ao, mo_coeff)")], "K1.cache-key"),
 ]
 
 SILENT = [
@@ -334,4 +356,15 @@ SILENT = [
     ("histogram-copy-via-dict", "C18", [(HIST, "        self.counts = outcomes.copy()", "        self.counts = dict(outcomes)")]),
     ("sz-term-order", "C12", [(FO, "[((up[0], 1), (up[1], 0)), 1/2], [((dn[0], 1), (dn[1], 0)), -1/2]", "[((dn[0], 1), (dn[1], 0)), -1/2], [((up[0], 1), (up[1], 0)), 1/2]")]),
     ("suzuki-spelling", "C06", [(AU, "        outside = 2 * recursive_trotter_suzuki_decomposition(pauli_words, order-2, time_factor*time)", "        half = recursive_trotter_suzuki_decomposition(pauli_words, order-2, time_factor*time)\n        outside = half + half")]),
+    # ---- rules added in wave 3
+    ("identity-term-multi-control-first-qubit", "C06", [(AU, "target=control[-1], control=control[:-1], parameter=-np.real(coef)", "target=control[0], control=control[1:], parameter=-np.real(coef)")]),
+    ("combinatorial-double-precision", "C03", [(COMBI, "    quop_matrix = np.zeros((2**n, 2**n), dtype=np.complex64)", "    quop_matrix = np.zeros((2**n, 2**n), dtype=np.complex128)")]),
+    ("record-split-truthiness", "C10", [(BACK, "            if n_cmeas == 0:\n                self.mid_circuit_meas_freqs, frequencies = split_frequency_dict(", "            if not n_cmeas:\n                self.mid_circuit_meas_freqs, frequencies = split_frequency_dict(")]),
+    ("cirq-records-numeric-sort", "C10", [(TGCIRQ, "                bitstr = \"\".join([str(job_sim.measurements[str(i)][j, 0]) for i in range(n_meas + source_circuit.width)])", "                bitstr = \"\".join([str(job_sim.measurements[k][j, 0]) for k in sorted(job_sim.measurements, key=int)])")]),
+    ("simplify-out-of-place-passes", "C09", [(CIRC, "        c_new = merge_rotations(c_old)\n        c_new.remove_small_rotations(param_threshold=param_threshold, remove_qubits=remove_qubits)\n        c_new.remove_redundant_gates(remove_qubits=remove_qubits)",
+                                               "        c_new = remove_small_rotations(merge_rotations(c_old), param_threshold=param_threshold, remove_qubits=remove_qubits)\n        c_new = remove_redundant_gates(c_new, remove_qubits=remove_qubits)")]),
+    ("uccgd-rebuild-on-any-order-change", "C07", [(UCCGDF, "        if list(qu_op_dict) != [term for term, _ in self.pauli_order]:", "        if list(qu_op_dict.keys()) != [item[0] for item in self.pauli_order]:")]),
+    ("deflation-coeff-float-default", "C08", [(VQE, "        self.deflation_coeff: float = copt_dict.pop(\"deflation_coeff\", 1)", "        self.deflation_coeff: float = copt_dict.pop(\"deflation_coeff\", 1.0)")]),
+    ("explicit-mo-coeff-conditional-expression", "C04", [(ISP, "        if mo_coeff is None:\n            mo_coeff = self.mo_coeff\n\n        if sqmol.uhf:", "        mo_coeff = self.mo_coeff if mo_coeff is None else mo_coeff\n\n        if sqmol.uhf:")]),
+    ("scbk-vector-explicit-slices", "C05", [(SV, "            warnings.warn(\"Symmetry-conserving Bravyi-Kitaev enforces all spin-up followed by all spin-down ordering.\", RuntimeWarning)\n            vector = np.concatenate((vector[::2], vector[1::2]))", "            warnings.warn(\"Symmetry-conserving Bravyi-Kitaev enforces all spin-up followed by all spin-down ordering.\", RuntimeWarning)\n            vector = np.concatenate((vector[0::2], vector[1::2]))")]),
 ]
